@@ -545,6 +545,16 @@ class ServerTls(Server):
                                         )
 
 
+    def close(self):
+        """
+        Close all sockets including those of connections still handshaking in .cxes
+        """
+        super(ServerTls, self).close()
+        for cx in self.cxes.values():  # handshake not yet completed
+            cx.close()
+        self.cxes.clear()
+
+
     def serviceAxes(self):
         """
         Service accepteds
